@@ -91,8 +91,9 @@ class Conv:
             op, lhs, rhs = args
             n = getattr(op, "name", None) or op.__name__
             if n == "getitem":
-                if op.defaults.get("offset", 0) != 0:
-                    raise NoSemantics("getitem offset")
+                off = op.defaults.get("offset", 0)
+                if off != 0:
+                    return ("getitem_at", self.term(lhs), self.term(rhs), off)
                 return ("getitem", self.term(lhs), self.term(rhs))
             return ("binary", self.opname(op), self.term(lhs), self.term(rhs))
         if cls is Reduce:
